@@ -137,6 +137,34 @@ func c13Scenario(name string, prefix []string) *Scenario {
 				Enabled: func(_ *model.State, aux map[string]int) bool { return aux["base"] >= 1 }})
 		}
 	}
+	// signatures cover the whole message: every message type signed in amino-JSON mode (where the signed
+	// bytes come from the message's own GetSignBytes) by its entitled party - once delivered as signed
+	// (control: behaves like any other transaction), once per field altered after signing (must not pass
+	// signature verification)
+	entitled := map[string]string{model.EntRaise: "P1", model.EntDecide: "S1", model.EntWhitelist: "S1", model.WrkReg: "W1", model.WrkRec: "W1", model.WrkPur: "W1",
+		model.BcnReg: "W1", model.BcnRec: "W1", model.BcnPur: "W1", model.StrCreate: "A", model.StrClaim: "R1", model.StrTopUp: "A", model.StrUpdate: "A", model.StrCancel: "A"}
+	for _, k := range kinds {
+		x, ok := entitled[k]
+		if !ok {
+			continue
+		}
+		k, x := k, x
+		fan := func(_ *model.State, aux map[string]int) bool { return aux["base"] >= 1 }
+		s.Actions = append(s.Actions, Action{Name: fmt.Sprintf("amino-json(%s by %s)", k, x), Dt: ms, Enabled: fan,
+			Txs: func(m *model.State) []model.Tx {
+				msg, f := mk[k](x, m)
+				return []model.Tx{{Msgs: []model.Msg{msg}, Signed: []model.Msg{msg}, Fee: f}}
+			}})
+		probe, _ := mk[k](x, model.NewProbeState())
+		for vi := range alterMsg(probe) {
+			vi := vi
+			s.Actions = append(s.Actions, Action{Name: fmt.Sprintf("altered-after-signing(%s by %s, variant %d)", k, x, vi), Dt: ms, Enabled: fan,
+				Txs: func(m *model.State) []model.Tx {
+					msg, f := mk[k](x, m)
+					return []model.Tx{{Msgs: []model.Msg{alterMsg(msg)[vi]}, Signed: []model.Msg{msg}, Fee: f}}
+				}})
+		}
+	}
 	// the base letters are only for the prefix; the search itself is the fan-out
 	for i := 0; i < base; i++ {
 		s.Actions[i].Enabled = func(*model.State, map[string]int) bool { return false }
@@ -144,6 +172,48 @@ func c13Scenario(name string, prefix []string) *Scenario {
 	s.Actions = append(s.Actions, Action{Name: "begin-fanout", Dt: ms, Count: "base", Enabled: func(_ *model.State, aux map[string]int) bool { return aux["base"] < 1 }})
 	s.Prefix = append(append([]string{}, prefix...), "begin-fanout")
 	return s
+}
+
+// alterMsg: the message with one field changed at a time (same acting party, so the same keys sign).
+func alterMsg(m model.Msg) []model.Msg {
+	var out []model.Msg
+	add := func(f func(v *model.Msg)) {
+		v := m
+		v.S = append([]string{}, m.S...)
+		f(&v)
+		out = append(out, v)
+	}
+	if m.ID > 0 {
+		add(func(v *model.Msg) { v.ID++ })
+	}
+	switch m.Kind {
+	case model.EntDecide:
+		add(func(v *model.Msg) { v.N = 5 - v.N }) // accept <-> reject
+	case model.EntWhitelist:
+		add(func(v *model.Msg) { v.N = 3 - v.N }) // add <-> remove
+	case model.WrkPur, model.BcnPur:
+		add(func(v *model.Msg) { v.N++ })
+	}
+	if m.Amt != "" {
+		add(func(v *model.Msg) { v.Amt += "0" })
+	}
+	if m.Rate > 0 {
+		add(func(v *model.Msg) { v.Rate++ })
+	}
+	if m.To != "" {
+		add(func(v *model.Msg) { v.To = map[bool]string{true: "P1", false: "O"}[v.To == "O"] })
+	}
+	if m.H > 0 {
+		add(func(v *model.Msg) { v.H++ })
+	}
+	for i := range m.S {
+		i := i
+		add(func(v *model.Msg) { v.S[i] += "x" })
+	}
+	if m.T > 0 {
+		add(func(v *model.Msg) { v.T++ })
+	}
+	return out
 }
 
 func init() {
